@@ -16,6 +16,15 @@ FS = "func_adl/ast/function_simplifier.py"
 UT = "func_adl/util_types.py"
 
 MUTANTS = {
+    "C11": [
+        {"name": "clone-mutates-self", "edits": [(OS_, "        clone = copy.copy(self)\n        clone._q_ast = new_ast", "        clone = copy.copy(self)\n        if isinstance(new_ast, ast.Call) and getattr(new_ast.func, 'id', '') == 'MetaData':\n            self._q_ast = new_ast\n        clone._q_ast = new_ast")]},
+        {"name": "qmetadata-no-copy", "edits": [(OS_, "new_self = self.clone_with_new_ast(copy.copy(base_ast), self.item_type)", "new_self = self.clone_with_new_ast(base_ast, self.item_type)")]},
+        {"name": "metadata-merges-into-existing-node", "edits": [(OS_, "        return self.clone_with_new_ast(\n            function_call(\"MetaData\", [self._q_ast, as_ast(metadata)]), self.item_type\n        )", "        if isinstance(self._q_ast, ast.Call) and getattr(self._q_ast.func, 'id', '') == 'MetaData' and len(metadata) > 0:\n            self._q_ast.args[1] = as_ast({**ast.literal_eval(self._q_ast.args[1]), **metadata})\n            return self.clone_with_new_ast(self._q_ast, self.item_type)\n        return self.clone_with_new_ast(\n            function_call(\"MetaData\", [self._q_ast, as_ast(metadata)]), self.item_type\n        )")]},
+        {"name": "remove-empty-in-place", "edits": [(MD, "        new_node = copy.copy(node)\n        for field, new_value in changes.items():", "        new_node = node\n        for field, new_value in changes.items():")]},
+        {"name": "user-ast-not-copied", "edits": [(UA, "        return lambda_unwrap(copy.deepcopy(ast_source))", "        return lambda_unwrap(ast_source)")]},
+        {"name": "terminal-shares-columns-node", "edits": [(OS_, "            function_call(\"ResultAwkwardArray\", [self._q_ast, as_ast(columns)])", "            function_call(\"ResultAwkwardArray\", [self._q_ast.args[0] if getattr(getattr(self._q_ast, 'func', None), 'id', '') == 'MetaData' and not ast.literal_eval(self._q_ast.args[1]) else self._q_ast, as_ast(columns)])")], "equivalent": "a new stream may legitimately drop an empty wrapper; older streams are untouched"},
+        {"name": "item-type-cached-on-parent", "edits": [(OS_, "        return self.clone_with_new_ast(\n            function_call(\"SelectMany\", [n_stream.query_ast, n_ast]),\n            unwrap_iterable(rtn_type),\n        )", "        self._item_type = self._item_type if rtn_type is Any else self._item_type\n        n = self.clone_with_new_ast(\n            function_call(\"SelectMany\", [n_stream.query_ast, n_ast]),\n            unwrap_iterable(rtn_type),\n        )\n        if getattr(n_stream, '_q_ast', None) is not self._q_ast:\n            self._q_ast = n_stream.query_ast\n        return n")]},
+    ],
     "C09": [
         {"name": "method-before-class", "edits": [(TBR, "            for base_obj in [obj_type, call_method]:", "            for base_obj in [call_method, obj_type]:")]},
         {"name": "drop-scan-for-metadata", "edits": [(TBR, "                scan_for_metadata(r.query_ast, add_md)\n", "")]},
@@ -130,7 +139,7 @@ MUTANTS = {
         {"name": "append-after-source", "edits": [(MD, "            self._metadata.append(ast.literal_eval(node.args[1]))\n            return self.visit(node.args[0])", "            r = self.visit(node.args[0])\n            self._metadata.append(ast.literal_eval(node.args[1]))\n            return r")]},
         {"name": "le-one", "edits": [(MD, "if isinstance(d, dict) and len(d) == 0:", "if isinstance(d, dict) and len(d) <= 1:")]},
         {"name": "skip-lambda", "edits": [(MD, "    def visit_Call(self, node: ast.Call):\n        \"\"\"Detect a MetaData call", "    def visit_Lambda(self, node):\n        return node\n\n    def visit_Call(self, node: ast.Call):\n        \"\"\"Detect a MetaData call")]},
-        {"name": "in-place-again", "edits": [(MD, "            if len(changes) == 0:\n                return node\n            new_node = copy.copy(node)", "            if len(changes) == 0:\n                return node\n            new_node = node")]},
+        {"name": "in-place-again", "edits": [(MD, "        if len(changes) == 0:\n            return node\n        new_node = copy.copy(node)", "        if len(changes) == 0:\n            return node\n        new_node = node")]},
         {"name": "outer-only", "edits": [(MD, "                    if isinstance(d, dict) and len(d) == 0:\n                        return n.args[0]", "                    if isinstance(d, dict) and len(d) == 0:\n                        return node.args[0]")]},
     ],
     "C19": [
